@@ -24,7 +24,7 @@ EXPLANATION = (
     "(maxcol,) of the box width (the rows shown are the items' renderings at that width); (11) SIB: render() compares the rows calculate_visible reported with the "
     "rows actually rendered for all three groups (above, focus, below); (12) SIB: the two bundled walkers step positions with identical next_position / "
     "prev_position / positions; (13) FOCUS-FWD and OPTCALL restricted to listbox.py (the focus flag reaches the focus item; optional child methods are called "
-    "under hasattr); (14) BOUND: the walker clamps its focus index to len - 1 under `index >= len` (a focus left one past the end makes the ListBox render blank although items remain); (15) SENTINEL: walker results are compared with None by identity (an empty container item is falsy but is a widget)."
+    "under hasattr); (14) BOUND: the walker clamps its focus index to len - 1 under `index >= len` (a focus left one past the end makes the ListBox render blank although items remain); (15) SENTINEL: walker results are compared with None by identity (an empty container item is falsy but is a widget); (16) GUARD: a paging candidate reaches change_focus() with its own offset only where the tests on the way entail row_offset + rows > 0 - linear atoms, per reaching definition of the offset (fix 15a2acb: page down tried items scrolled off the top and raised ListBoxError)."
 )
 NOT_DECIDED = (
     "That the window is gap-free and contains the focus for every history (arithmetic over offset_rows / inset_fraction / item heights), snapping and paging "
@@ -180,6 +180,98 @@ def rule_walker_twins(ctx: Ctx) -> RuleResult:
     return rr
 
 
+def rule_candidate_on_page(ctx: Ctx) -> RuleResult:
+    """change_focus() refuses an offset that puts the whole target above the top edge (`offset_inset + rows <= 0` ->
+    ListBoxError).  The paging methods collect candidate items in a list of (row_offset, widget, position, rows) and
+    try them one after the other; after the page was scrolled some of the collected items lie off the top entirely.
+    Every change_focus(size, pos, row_offset, ...) that is handed a candidate's own offset is reached only where the
+    dominating tests show row_offset + rows > 0 (linear atoms of the tests on the way, entailment of the sum being
+    positive).  Before fix 15a2acb both candidate loops of _keypress_page_down lacked the test: about 1 in 400 random
+    histories over standard widgets ended in ListBoxError 'Invalid offset_inset: -2, only 2 rows in target!'."""
+    from ..rules.defuse import DefUse
+    from ..rules.runpos import _atoms, _entails_positive
+    from ..rules.util import lin_str, linear
+
+    p = ctx.p
+    rr = RuleResult("GUARD", "C07.16", "a paging candidate is handed to change_focus() with its own row offset only where row_offset + rows > 0 is known (the target is not off the top edge entirely)", floor=3)
+    for fi in p.all_class_functions(p.cls(LB)):
+        calls = [c for c in fi.own_nodes() if isinstance(c, ast.Call) and isinstance(c.func, ast.Attribute) and c.func.attr == "change_focus" and len(c.args) >= 3 and isinstance(c.args[2], ast.Name)]
+        if not calls:
+            continue
+        du = DefUse(fi)
+        cfg = du.cfg
+        size_elems = set()
+        for n in fi.own_nodes():
+            if isinstance(n, ast.Assign) and isinstance(n.value, ast.Name) and n.value.id == "size" and isinstance(n.targets[0], (ast.Tuple, ast.List)):
+                size_elems |= {e.id for e in n.targets[0].elts if isinstance(e, ast.Name)}
+        # candidate unpackings: `a, w, p, r = t[i]` / `for a, w, p, r in ...` with four names
+        unpacks = {}
+        for n in fi.own_nodes():
+            tgt = None
+            if isinstance(n, ast.Assign) and len(n.targets) == 1 and isinstance(n.targets[0], ast.Tuple) and isinstance(n.value, ast.Subscript):
+                tgt = n.targets[0]
+            if tgt is not None and len(tgt.elts) == 4 and all(isinstance(e, ast.Name) for e in tgt.elts):
+                unpacks[tgt.elts[0].id] = (tgt.elts[2].id, tgt.elts[3].id)
+        for c in calls:
+            off = c.args[2].id
+            if off not in unpacks or not (isinstance(c.args[1], ast.Name) and c.args[1].id == unpacks[off][0]):
+                continue
+            rows = unpacks[off][1]
+            cn = next((n for n in cfg.nodes for e in node_exprs(n) for x in ast.walk(e) if x is c), None)
+            if cn is None:
+                continue
+            # per definition of the offset that reaches the call: the candidate's own value (the unpacking) needs the
+            # tests passed since then; a value the method computed itself (`row_offset = -(rows - 1)`) is added up
+            ok = True
+            facts = []
+            defs = du.reaching(off, cn)
+            def_nodes = {dn for _v, _h, dn in defs}
+            for val, _how, dn in defs:
+                if isinstance(val, ast.AST) and not isinstance(val, ast.Subscript) and linear(val) is not None:
+                    goal = dict(linear(val))
+                    goal[rows] = goal.get(rows, 0) + 1
+                    goal = {k: v for k, v in goal.items() if v}
+                    dfacts = []
+                    # a value built from quantities with known lower bounds: an element of `size` is at least 1, a
+                    # row count is at least 0 - at least 1 where the tests on the way exclude 0 (`if not rows: continue`)
+                    dom = []
+                    for tn in cfg.nodes:
+                        if tn.kind == "test":
+                            for lab, truth in (("T", True), ("F", False)):
+                                if cn not in ExcEngine._reach_without_edge(cfg, tn, lab):
+                                    dom += _atoms(tn.ast, truth)
+                    lower = {e_: 1 for e_ in size_elems}
+                    lower[rows] = 1 if any(e == {rows: 1} and o in ("!=", ">") for e, o in dom) else 0
+                    if all(k == "" or (k in lower and v > 0) for k, v in goal.items()):
+                        if sum(v * (1 if k == "" else lower[k]) for k, v in goal.items()) > 0:
+                            continue
+                else:
+                    goal = {off: 1, rows: 1}
+                    dfacts = []
+                    for tn in cfg.nodes:
+                        if tn.kind != "test":
+                            continue
+                        for lab, truth in (("T", True), ("F", False)):
+                            # every way from this definition to the call (no other definition in between) takes the edge
+                            seen, todo = {dn}, [dn]
+                            while todo:
+                                x = todo.pop()
+                                for y, l in x.succ:
+                                    if (x is tn and l == lab) or l == "e" or y in seen or (y in def_nodes and y is not dn):
+                                        continue
+                                    seen.add(y)
+                                    todo.append(y)
+                            if cn not in seen:
+                                dfacts += _atoms(tn.ast, truth)
+                facts += dfacts
+                if not _entails_positive(goal, dfacts):
+                    ok = False
+            rr.inst(f"{short(fi)}@{c.lineno - fi.node.lineno}: {norm(c, 50)}", True, {"call": f"{short(fi)}: {norm(c, 70)}", "needs": f"{off} + {rows} > 0", "known": [f"{lin_str(e)} {o} 0" for e, o in facts if off in e][:5], "shown": ok})
+            if not ok:
+                rr.add(finding("GUARD", fi, c, f"`{norm(c, 70)}` hands the candidate's own offset `{off}` to change_focus() although nothing on the way shows `{off} + {rows} > 0`: an item that the page scrolled off the top edge entirely is tried as the new focus and change_focus() raises ListBoxError (Invalid offset_inset)", construct=f"{fi.name}: candidate offset {off} not shown on the page"))
+    return rr
+
+
 def run(ctx: Ctx):
     p = ctx.p
     from . import c01, c08, c09
@@ -203,6 +295,7 @@ def run(ctx: Ctx):
         rule_walker_twins(ctx),
         fwd.run_fwd(p, "C07.13a", ("urwid.widget.listbox",), floor=10, description="ListBox passes the focus flag it receives on to every callee that takes one (the focus item is measured and drawn focused, the cursor row is the focused one)"),
         optcall.run_optcall(p, "C07.13b", ("urwid.widget.listbox",), floor=5),
+        rule_candidate_on_page(ctx),
     ]
 
 
@@ -210,6 +303,10 @@ from ..mutants import Mut  # noqa: E402
 
 _L = "urwid/widget/listbox.py"
 MUTANTS = [
+    Mut("page-down-tries-candidate-off-the-top", _L, "ListBox._keypress_page_down", "            if row_offset + rows <= 0:\n                # scrolled off the top edge entirely: not on the new page\n                continue\n", "", "GUARD|widget.listbox.ListBox._keypress_page_down|_keypress_page_down: candidate offset row_offset not shown on the page"),
+    Mut("page-down-fallback-tries-candidate-off-the-top", _L, "ListBox._keypress_page_down", "            if row_offset + rows <= 0:  # nor one that is off the top edge entirely\n                continue\n", "", "GUARD|widget.listbox.ListBox._keypress_page_down|_keypress_page_down: candidate offset row_offset not shown on the page"),
+    Mut("page-up-fallback-edge-off-by-one", _L, "ListBox._keypress_page_up", "            if rows + row_offset <= 0:\n                snap_rows -= (-row_offset) - (rows - 1)", "            if rows + row_offset < 0:\n                snap_rows -= (-row_offset) - (rows - 1)", "GUARD|widget.listbox.ListBox._keypress_page_up|_keypress_page_up: candidate offset row_offset not shown on the page"),
+    Mut("twin-page-down-candidate-test-rearranged", _L, "ListBox._keypress_page_down", "            if row_offset + rows <= 0:\n                # scrolled off", "            if rows <= -row_offset:\n                # scrolled off", twin=True),
     Mut("listbox-trim-bottom-before-offset-final", _L, "ListBox.calculate_visible", "        focus_rows = focus_widget.rows((maxcol,), True)\n\n        # 2. collect the widgets above the focus", "        focus_rows = focus_widget.rows((maxcol,), True)\n        trim_bottom = max(focus_rows + offset_rows - inset_rows - maxrow, 0)\n\n        # 2. collect the widgets above the focus", "SIB|widget.listbox.ListBox.calculate_visible|complementary quantities computed from different states", also=[("        trim_bottom = max(focus_rows + offset_rows - inset_rows - maxrow, 0)\n\n        # 3. collect", "        # 3. collect")]),
     Mut("listbox-mouse-fill-above-not-reversed", _L, "ListBox.mouse_event", "        fill_above.reverse()  # fill_above is in bottom-up order\n", "", "SIB|widget.listbox.ListBox.mouse_event|fill_above used in screen order without reverse()"),
     Mut("listbox-set-focus-no-empty-test", _L, "ListBox.set_focus", "        if focus_widget is None:\n            raise IndexError(\"Can't set focus, ListBox is empty\")\n", "", "GUARD|widget.listbox.ListBox.set_focus|empty ListBox accepts a focus position"),
